@@ -1,7 +1,7 @@
 (* Executable message-level model of AsyncFIXConnection._process_resend (asyncfix/connection.py)
-   together with what it calls: Journaler.recover_messages / set_seq_num / persist_msg,
+   together with what it calls: Journaler.recover_messages / persist_msg (set_seq_num is no longer called by the handler),
    send_msg (state gates, the codec's sequence-number selection, write, drain, journal write after
-   the write), Codec.decode of the journaled frames, should_replay.  It follows the Python line by
+   the write - skipped for PossDupFlag=Y and for SequenceReset-GapFill: the replies to a ResendRequest), Codec.decode of the journaled frames, should_replay.  It follows the Python line by
    line, including its defects.  No proofs here: see AF.Lemmas.ResendL and AF.Props.C06.
 
    Level of abstraction.  A frame / journaled outbound row is
@@ -123,13 +123,6 @@ Definition sort_by_seq (l : list row) : list row := fold_right insert_by_seq [] 
 Definition recover (lo hi : Z) (rs : list row) : list row :=
   sort_by_seq (filter (fun r => (lo <=? r_seq r) && (r_seq r <=? hi)) rs).
 
-(* set_seq_num(session, next_num_out=v): the assertion comes before anything is assigned; then the
-   stored counter is updated, rows >= v are deleted, commit *)
-Definition set_seq_num_out (v : Z) (s : st) : res :=
-  if v <=? 0 then Exc EAssertion s
-  else Ok (mkSt (cstate s) (initiator s) (testreq_pending s) v (v - 1) (clock s)
-                (filter (fun r => r_seq r <? v) (rows s)) (wire s) (calls s) (states s)).
-
 (* persist_msg(frame, session, OUTBOUND): INSERT fails on an existing key (DuplicateSeqNoError,
    nothing changed), otherwise the stored counter becomes the frame's own number; commit *)
 Definition persist (fr : row) (s : st) : res :=
@@ -168,6 +161,13 @@ Definition select_seq (m : msg) (s : st) : option (Z * Z) :=      (* (number use
 Definition header_skipped (t : str) : bool :=
   str_eqb t T_MsgSeqNum || str_eqb t T_SendingTime || str_eqb t T_SenderCompID || str_eqb t T_TargetCompID.
 
+(* msg.get(PossDupFlag, None) == "Y" or (msg_type == SEQUENCERESET and msg.get(GapFillFlag, None) == "Y") *)
+Definition tag_is_Y (t : str) (fs : list field) : bool :=
+  match get_tag t fs with Some v => str_eqb v V_Y | None => false end.
+Definition is_resend_reply (m : msg) : bool :=
+  tag_is_Y T_PossDupFlag (m_fields m)
+  || (str_eqb (m_type m) MT_SEQUENCERESET && tag_is_Y T_GapFillFlag (m_fields m)).
+
 Definition send_msg (m : msg) (s : st) : res :=
   match send_gates m s with
   | Exc e s' => Exc e s'
@@ -180,9 +180,11 @@ Definition send_msg (m : msg) (s : st) : res :=
           let k := clock s + 1 in
           let fr := mkRow n (m_type m) (time_str k)
                           (filter (fun f => negb (header_skipped (fst f))) (m_fields m)) in
-          (* writer.write(frame); await drain(); then the journal *)
-          persist fr (mkSt (cstate s) (initiator s) (testreq_pending s) nout' (sout s) k (rows s)
-                           (wire s ++ [fr]) (calls s) (states s))
+          (* writer.write(frame); await drain() *)
+          let s' := mkSt (cstate s) (initiator s) (testreq_pending s) nout' (sout s) k (rows s)
+                         (wire s ++ [fr]) (calls s) (states s) in
+          (* replies to a ResendRequest are not journaled: the journal keeps the original messages *)
+          if is_resend_reply m then Ok s' else persist fr s'
       end
   end.
 
@@ -235,31 +237,26 @@ Fixpoint replay_loop (f : row -> bool) (rs : list row) (gfb gfe : Z) (s : st) : 
 
 Definition fits_int64 (z : Z) : bool := (INT64_MIN <=? z) && (z <=? INT64_MAX).
 
-(* the handler after BeginSeqNo / EndSeqNo were read: b = int(tag 7), e0 = int(tag 16) *)
+(* the handler after BeginSeqNo / EndSeqNo were read: b = int(tag 7), e0 = int(tag 16).
+   session.next_num_out and the journal are not touched (the two set_seq_num calls are gone). *)
 Definition resend_body (f : row -> bool) (b e0 : Z) (s : st) : st * option exc :=
     let e := if e0 =? 0 then sys_maxsize else e0 in
     (* sqlite3 refuses to bind integers outside 64 bits (OverflowError) *)
     if negb (fits_int64 b && fits_int64 e) then (s, Some EOverflow) else
     let replay := recover b e (rows s) in
     let current := nout s in
-    match set_seq_num_out b s with
-    | Exc x s' => (s', Some x)
-    | Ok s1 =>
-        match replay_loop f replay b b s1 with
-        | LExc x s' => (s', Some x)
-        | LOk gfb gfe s2 =>
-            if negb (gfe <=? current) then (s2, Some EAssertion) else
-            match (if gfb <? current then send_msg (gap_fill_msg gfb current) s2 else Ok s2) with
-            | Exc x s' => (s', Some x)
-            | Ok s3 =>
-                match set_seq_num_out current s3 with
-                | Exc x s' => (s', Some x)
-                | Ok s4 =>
-                    (if cstate s4 =? ST_AWAITING then s4 else state_set ST_ACTIVE s4, None)
-                end
-            end
+    match replay_loop f replay b b s with
+    | LExc x s' => (s', Some x)
+    | LOk gfb gfe s2 =>
+        if negb (gfe <=? current) then (s2, Some EAssertion) else
+        match (if gfb <? current then send_msg (gap_fill_msg gfb current) s2 else Ok s2) with
+        | Exc x s' => (s', Some x)
+        | Ok s3 => (if cstate s3 =? ST_AWAITING then s3 else state_set ST_ACTIVE s3, None)
         end
     end.
+
+(* if begin_seq_no < 1: begin_seq_no = 1   (an invalid BeginSeqNo is answered from the first message) *)
+Definition clamp1 (b : Z) : Z := if b <? 1 then 1 else b.
 
 (* begin_s / end_s: the values of tags 7 and 16 of the request, None when the tag is absent.
    Returns the state afterwards and the exception that left _process_resend (the dispatcher's
@@ -269,5 +266,5 @@ Definition process_resend (f : row -> bool) (begin_s end_s : option str) (s : st
   match begin_s with None => (s, Some ETagNotFound) | Some bs =>
   match py_int bs with None => (s, Some EValue) | Some b =>
   match end_s with None => (s, Some ETagNotFound) | Some es =>
-  match py_int es with None => (s, Some EValue) | Some e0 => resend_body f b e0 s
+  match py_int es with None => (s, Some EValue) | Some e0 => resend_body f (clamp1 b) e0 s
   end end end end.
